@@ -141,12 +141,28 @@ def new_parent(h, b, spec, clean):
     return par_
 
 
-def new_parent_fresh(spec, clean):
+def wrapping_parent(h, b, spec, clean):
+    """A new parent instantiating the library's Wrapper(m) of every clean module m."""
+    from hdl21.generators import Wrapper
+    par_ = h.Module(name="WrappingParent")
+    for k in clean:
+        w = Wrapper(b.module(k))
+        conns = {}
+        for p in model.module_iface(spec, k):
+            if p[0] == "sig":
+                conns[p[1]] = par_.add(h.Signal(name="wp%d_%s" % (k, p[1]), width=p[2]))
+            else:
+                conns[p[1]] = par_.add(b.bundle(p[2])(), name="wp%d_%s" % (k, p[1]))
+        par_.add(w(**conns), name="w%d" % k)
+    return par_
+
+
+def new_parent_fresh(spec, clean, wrap=False):
     env.setup_paths()
     import hdl21 as h
     b = Builder(spec)
     try:
-        return h.to_proto(new_parent(h, b, spec, clean)).SerializeToString(deterministic=True).hex()
+        return h.to_proto((wrapping_parent if wrap else new_parent)(h, b, spec, clean)).SerializeToString(deterministic=True).hex()
     except Exception as e:
         return None
 
@@ -245,6 +261,8 @@ def run_scenario(spec, fault, cont):
             def body(params: GP) -> h.Module:
                 gen_counts["n"] = gen_counts.get("n", 0) + 1
                 if gen_counts["n"] == 1:
+                    if fault["where"] == "returns_none":
+                        return None  # (a body that forgot its return statement, the first time round)
                     if fault["where"].endswith("_base"):
                         raise Interrupted("generator body interrupted on its first call")
                     raise Injected("generator body raised on its first call")
@@ -272,7 +290,13 @@ def run_scenario(spec, fault, cont):
                 G2 = h.generator(body2)
                 fn = lambda: 1
                 first = lambda: G2(f=fn)
-            elif fault["where"] in ("direct", "direct_base"):
+            elif fault["where"] == "wrong_params":
+                # a positional argument that is not the generator's parameter type: refused before the body runs
+                @h.paramclass
+                class Other:
+                    k = h.Param(dtype=int, desc="k", default=0)
+                first = lambda: G(Other(k=1))
+            elif fault["where"] in ("direct", "direct_base", "returns_none"):
                 first = lambda: G(k=1)
             elif fault["where"] == "nested_caught":
                 # the failing call happens inside another generator's body, which catches the error and completes;
@@ -355,6 +379,12 @@ def run_scenario(spec, fault, cont):
             out["clean"] = clean
             out["bytes"] = export(new_parent(h, b, spec, clean)) if clean else None
             out["cont"] = "returned"
+        elif cont == "wrap_clean":
+            # ... the same modules handed to the library's Wrapper generator, the wrappers instantiated in a new parent
+            clean = [k for k in range(len(spec["modules"])) if k in c07_reach(spec, top) and offending not in c07_reach(spec, k)]
+            out["clean"] = clean
+            out["bytes"] = export(wrapping_parent(h, b, spec, clean)) if clean else None
+            out["cont"] = "returned"
         elif cont == "edit_parent":
             po = parent_of(spec, offending) if offending is not None else None
             if po is None:
@@ -399,7 +429,7 @@ def faults_for(spec):
         for m in mods:
             for k in (1, 2, 3):
                 out.append({"kind": "mid_rewrite", "pass": pname, "module": m, "k": k})
-    for where in ("direct", "nested", "in_module", "naming", "direct_base", "nested_base", "nested_caught"):
+    for where in ("direct", "nested", "in_module", "naming", "direct_base", "nested_base", "nested_caught", "returns_none", "wrong_params"):
         out.append({"kind": "gen_raises", "where": where})
     return out
 
@@ -427,9 +457,11 @@ def judge(spec, fault, cont, r, fresh, unrel):
     circ = "circular dependency" in (r.get("cont_line") or "") or "circular dependency" in (r.get("cont_msg") or "")
     orig_circ = "circular" in (r.get("first_line") or "")
     if cont == "retry":
-        if fault["kind"] == "gen_raises" and fault["where"] == "naming":
+        if fault["kind"] == "gen_raises" and fault["where"] in ("naming", "wrong_params"):
             if r.get("cont") == "returned":
                 fails.append(("failed_generator_call_returns_on_retry", "a generator call that failed (%s) returned a module when repeated; a fresh process raises" % r.get("first_line")))
+            elif circ and not orig_circ:
+                fails.append(("spurious_circular_dependency:gen_raises:" + fault["where"], "the refused generator call, repeated, reports %r; the original error was %r" % (r.get("cont_line"), r.get("first_line"))))
         elif fault["kind"] == "gen_raises":
             if r.get("cont") != "returned":
                 fails.append(("generator_not_rerun:" + fault["where"], "a generator whose body raised once raised again on the next call: %s" % r.get("cont_line")))
@@ -472,6 +504,12 @@ def judge(spec, fault, cont, r, fresh, unrel):
             fails.append(("unrelated_design_fails:" + tag, "after a failure elsewhere, an unrelated design raised: %s" % r.get("cont_line")))
         elif r.get("bytes") != unrel:
             fails.append(("unrelated_design_differs:" + tag, "after a failure elsewhere, an unrelated design exported differently from a fresh process"))
+    elif cont == "wrap_clean":
+        if r.get("clean") and fresh.get("new_parent") is not None:
+            if r.get("cont") != "returned":
+                fails.append(("wrapper_of_clean_submodule_fails:" + tag, "Wrapper(m) of a sub-module not containing the offending module, instantiated in a new parent, raised: %s" % r.get("cont_line")))
+            elif r.get("bytes") != fresh.get("new_parent"):
+                fails.append(("wrapper_of_clean_submodule_differs:" + tag, "Wrapper(m) of the sub-modules %s (none containing the offending module) exported differently from a fresh process" % r.get("clean")))
     elif cont == "share_clean":
         if r.get("cont") != "returned" and (not r.get("clean") or fresh.get("new_parent") is not None):
             fails.append(("clean_submodule_fails:" + tag, "a sub-module not containing the offending module raised: %s" % r.get("cont_line")))
@@ -499,7 +537,7 @@ def parent_of_offender_fresh(spec, offending):
         return None
 
 
-CONTS = ["retry", "repair_retry", "unrelated", "share_clean", "parent_of_offender", "edit_parent"]
+CONTS = ["retry", "repair_retry", "unrelated", "share_clean", "wrap_clean", "parent_of_offender", "edit_parent"]
 
 
 def shard(idx, n, tier):
@@ -535,7 +573,7 @@ def shard(idx, n, tier):
         scen = [(f, c) for f in faults_for(sp) for c in CONTS
                 if not (f["kind"] == "gen_raises" and c != "retry")]
         for cls, (site, ms) in design_faults(sp).items():
-            for c in ("retry", "unrelated", "share_clean", "edit_parent"):
+            for c in ("retry", "unrelated", "share_clean", "wrap_clean", "edit_parent"):
                 scen.append(({"kind": "design_fault", "cls": cls, "site": site, "spec": ms}, c))
         for fault, cont in scen:
             use = fault.get("spec", sp)
@@ -554,7 +592,7 @@ def shard(idx, n, tier):
                 res.harness_error("%s %s %s" % (r[1], r[2], r[3][-800:]))
                 continue
             if fault["kind"] == "design_fault":
-                fr = par.pristine(fresh_bytes, use, sorted(c07_reach(use, use["top"]))) if cont == "share_clean" else fr
+                fr = par.pristine(fresh_bytes, use, sorted(c07_reach(use, use["top"]))) if cont in ("share_clean", "wrap_clean") else fr
                 if par.is_exc(fr):
                     continue
             if cont == "edit_parent":
@@ -565,10 +603,10 @@ def shard(idx, n, tier):
                 if key not in np_cache:
                     np_cache[key] = par.pristine(edit_parent_fresh, use, r["edited"][0], r["edited"][1])
                 fr = dict(fr); fr["edit_parent"] = np_cache[key]
-            if cont == "share_clean" and r.get("clean"):
-                key = (id(use), tuple(r["clean"]))
+            if cont in ("share_clean", "wrap_clean") and r.get("clean"):
+                key = (id(use), tuple(r["clean"]), cont)
                 if key not in np_cache:
-                    np_cache[key] = par.pristine(new_parent_fresh, use, r["clean"])
+                    np_cache[key] = par.pristine(new_parent_fresh, use, r["clean"], cont == "wrap_clean")
                 fr = dict(fr); fr["new_parent"] = np_cache[key]
             fails, note = judge(use, fault, cont, r, fr, unrel)
             case = {"spec": use, "fault": fk, "cont": cont}
@@ -596,8 +634,8 @@ def replay(case):
     r = par.in_child(run_scenario, spec, fault, cont)
     if par.is_exc(r):
         raise RuntimeError(r[2])
-    if cont == "share_clean" and r.get("clean"):
-        fresh["new_parent"] = par.in_child(new_parent_fresh, spec, r["clean"])
+    if cont in ("share_clean", "wrap_clean") and r.get("clean"):
+        fresh["new_parent"] = par.in_child(new_parent_fresh, spec, r["clean"], cont == "wrap_clean")
     if cont == "edit_parent" and r.get("edited"):
         fresh["edit_parent"] = par.in_child(edit_parent_fresh, spec, r["edited"][0], r["edited"][1])
     fails, note = judge(spec, fault, cont, r, fresh, unrel)
